@@ -217,3 +217,7 @@ Proof.
   - apply finish_safe; [exact Hsafe|]. unfold ends_in_string in Hend.
     destruct (fst (run_min s)); try exact I; discriminate Hend.
 Qed.
+
+(* ---------- tokens of the sub-grammar, read off the byte-level normal form *)
+Lemma ntoks0_kept : forall s, ends_in_string s = false -> ntoks0 (minify_tagged s) = ntoks0 (decomment s).
+Proof. intros s H. unfold ntoks0. now rewrite (separators_kept s H). Qed.
